@@ -134,6 +134,39 @@ fn field_variant(key: &str, v: &Value, salt: u64) -> Option<Value> {
     None
 }
 
+/// Receive-path activity on a context that is about to encode: an encoder's output is a function of its arguments
+/// (and the stored EID) - not of what the context has received, decoded or answered before.
+fn stir(d: &mut D, ctx: u64, addr: u8) {
+    let mk = |cmd: u8, iid: u8, flags: u8, data: &[u8]| -> Vec<u8> {
+        let mut p = vec![addr << 1, 0x0F, 0, (0x31 << 1) | 1, 0x01, addr, 0x31, flags, 0x00, 0x80 | iid, cmd];
+        p.extend_from_slice(data);
+        p.push(0);
+        p[2] = (p.len() - 4) as u8;
+        crate::drivers::fix_pec(&mut p);
+        p
+    };
+    let iid = 1 + d.g.below(31) as u8;
+    let tag = 1 + d.g.below(7) as u8;
+    let eid = 1 + d.g.below(254) as u8;
+    let pkts = [
+        mk(1, iid, 0xC8 | tag, &[0, eid]),
+        mk(3, (iid + 7) & 0x1F, 0xC8, &[]),
+        mk(6, iid, 0xC8 | tag, &[0]),
+        mk(9, iid, 0xC8, &[]),
+    ];
+    for p in pkts.iter() {
+        d.process(ctx, p);
+    }
+    let mut r = mk(2, 0, 0xC0, &[0, 0x44, 0, 0]);
+    r[9] = iid; // a response (Rq = 0) from a peer
+    crate::drivers::fix_pec(&mut r);
+    d.decode(ctx, &r);
+    d.get_length(ctx, &pkts[0][..3]);
+    let mut bad = pkts[1].clone();
+    bad[5] ^= 0x10;
+    d.process(ctx, &bad);
+}
+
 /// An encoder is a function of its arguments (and the stored EID): call it with A, then with A changed in exactly
 /// one field, then with A again - for every field, on one context, with nothing in between.  Whatever an encoder
 /// keeps from one call to the next must not show in the bytes of the next.
@@ -329,6 +362,39 @@ pub fn requests(d: &mut D) {
             check_pkt(d, &p, k);
         }
     }
+    // every request encoder right after the encoding context has been busy receiving
+    for rep in 0..(if d.thorough { 12 } else { 2 }) {
+        for name in REQ_NAMES.iter() {
+            if rep % 2 == 0 || d.g.chance(1, 2) {
+                stir(d, 12, 0x34);
+            }
+            let dst = d.g.byte();
+            let a = d.rand_req_args(name, dst);
+            let p = d.enc_req(12, name, a);
+            k += 1;
+            check_pkt(d, &p, k);
+        }
+    }
+    // request and response of the same command, encoded and decoded back to back on the same contexts
+    for rep in 0..(if d.thorough { 10 } else { 2 }) {
+        for name in RESP_NAMES.iter() {
+            let dst = d.g.byte() & 0x7F;
+            let a = d.rand_req_args(name, dst);
+            let b = d.rand_resp_args(name, dst, 0);
+            let rc = 1 + (rep % 2) as u64;
+            if rep % 2 == 0 {
+                let p = d.enc_req(12, name, a);
+                d.decode(rc, &p);
+                let q = d.enc_resp(12, name, b);
+                d.decode(rc, &q);
+            } else {
+                let q = d.enc_resp(12, name, b);
+                d.decode(rc, &q);
+                let p = d.enc_req(12, name, a);
+                d.decode(rc, &p);
+            }
+        }
+    }
     // one field at a time, on one context, nothing in between
     for name in REQ_NAMES.iter() {
         for _ in 0..(if d.thorough { 40 } else { 4 }) {
@@ -447,6 +513,19 @@ pub fn responses(d: &mut D) {
         k += 1;
         check_pkt(d, &p, k);
     }
+    // every response encoder right after the encoding context has been busy receiving
+    for rep in 0..(if d.thorough { 12 } else { 2 }) {
+        for name in RESP_NAMES.iter() {
+            if rep % 2 == 0 || d.g.chance(1, 2) {
+                stir(d, 10, 0x2A);
+            }
+            let dst = d.g.byte();
+            let a = d.rand_resp_args(name, dst, 0);
+            let p = d.enc_resp(10, name, a);
+            k += 1;
+            check_pkt(d, &p, k);
+        }
+    }
     // one field at a time, on one context, nothing in between (no accessor call either)
     for name in RESP_NAMES.iter() {
         for _ in 0..(if d.thorough { 60 } else { 6 }) {
@@ -514,6 +593,17 @@ pub fn vendor(d: &mut D) {
         let dst = d.g.byte();
         let num = d.g.below(65536);
         let p = d.enc_vendor(10, vendor_args(dst, 1, &id, num, &msg), 64);
+        k += 1;
+        check_pkt(d, &p, k);
+    }
+    // vendor messages right after the encoding context has been busy receiving
+    for rep in 0..(if d.thorough { 40 } else { 6 }) {
+        stir(d, 10, 0x19);
+        let id = d.g.bytes(4);
+        let n = d.g.below(12) as usize;
+        let msg = d.g.bytes(n);
+        let dst = d.g.byte();
+        let p = d.enc_vendor(10, vendor_args(dst, (rep % 2) as u64, &id, 5, &msg), 64);
         k += 1;
         check_pkt(d, &p, k);
     }
